@@ -359,3 +359,34 @@ CHECKS["C14"] = {
     ],
     "assumptions": ["allocation failure is not injected"],
 }
+
+WRAP = ["malloc", "calloc", "realloc", "free", "strdup", "strndup", "asprintf", "vasprintf", "getline", "realpath", "scandir", "fopen", "fclose"]
+LEDGER_LD = ["-Wl," + ",".join("--wrap=" + w for w in WRAP)]
+
+CHECKS["C20"] = {
+    "engine": "E2",
+    "technique": "explicit-state search over setter histories + exhaustive fault-position enumeration over trees, real code with a link-time allocation ledger (leaks), ASan (double free / use after free) and a MemorySanitizer build (uninitialised reads)",
+    "level_text": "(a) every state reachable by <= d setter calls from 8 start states is built, queried through every getter (succeeding and failing), written, merged "
+                  "and released: the allocation ledger (all allocating libc entry points of the library wrapped at link time) must be empty; (b) every small "
+                  "tree x four read entry points (with and without callback) x every consulted-file position x fault kind {callback rejects, foreign owner, "
+                  "malformed line, file vanishes between check and open, dangling symlink, unknown option item} (thorough: all pairs of positions): out-pointers "
+                  "NULL/untouched/valid, ledger empty after releasing the valid handles; (c) the same two sweeps under clang MemorySanitizer with every returned "
+                  "field checked for initialisation; (d) the free functions accept NULL and return NULL",
+    "level_note": "bounded: depth 4, 3 names, single faults (quick); depth 5, 3 names, pairs of faults (thorough); MSan build one level shallower; allocation failure is not injected; a block obtained through an "
+                  "un-wrapped libc entry point would not be tracked (missed leak, never a false one); LeakSanitizer is not the oracle",
+    "rule": "case = state (canonical form) or (entry point, tree, fault kinds and positions); non-trivial = at least one setter call / at least one fault; distinct by canonical form / by construction",
+    "deadline": {"quick": 110, "thorough": 1200},
+    "parts": [
+        {"name": "e2-ledger", "harness": "c20", "variant": "ledger", "shards": 1, "extra_srcs": ["ledger.c"], "ldflags": LEDGER_LD,
+         "quick": ["--p0", 0, "--p1", 4], "thorough": ["--p0", 0, "--p1", 5], "deadline_share": 0.3, "floor": {"quick": 1000, "thorough": 10000}},
+        {"name": "faults-ledger", "harness": "c20", "variant": "ledger", "extra_srcs": ["ledger.c"], "ldflags": LEDGER_LD,
+         "quick": ["--p0", 1, "--p1", 3, "--p2", 0], "thorough": ["--p0", 1, "--p1", 3, "--p2", 1], "deadline_share": 0.3, "floor": {"quick": 10000, "thorough": 100000}},
+        {"name": "nullfree", "harness": "c20", "variant": "ledger", "shards": 1, "extra_srcs": ["ledger.c"], "ldflags": LEDGER_LD,
+         "quick": ["--p0", 2], "thorough": ["--p0", 2], "deadline_share": 0.02, "floor": {"quick": 2, "thorough": 2}},
+        {"name": "e2-msan", "harness": "c20", "variant": "msan", "shards": 1, "cflags": ["-DNO_LEDGER"],
+         "quick": ["--p0", 0, "--p1", 3], "thorough": ["--p0", 0, "--p1", 4], "deadline_share": 0.18, "floor": {"quick": 500, "thorough": 5000}},
+        {"name": "faults-msan", "harness": "c20", "variant": "msan", "cflags": ["-DNO_LEDGER"],
+         "quick": ["--p0", 1, "--p1", 2, "--p2", 0], "thorough": ["--p0", 1, "--p1", 3, "--p2", 0], "deadline_share": 0.2, "floor": {"quick": 500, "thorough": 10000}},
+    ],
+    "assumptions": ["checks run as root for the foreign-owner fault (skipped and counted otherwise)"],
+}
